@@ -417,6 +417,158 @@ def runIds {ι : Type} : Nat → List ι → List (ι × Nat)
   | _, [] => []
   | c, i :: rest => (i, (nextID c).2) :: runIds (nextID c).1 rest
 
+/-! ## round 4: who dials, and what a failed dial looks like to `getErrno`
+
+A failed dial is a `*net.OpError{Op: "dial"}` around `*os.SyscallError{"connect", errno}` (refused, unreachable, …) or around
+a timeout error (the dialer's `Timeout` expired). Between `net.Dialer` and `Shoot` sit, depending on the gun and its options:
+`netutil.NewDNSCachingDialer` (when `dns-cache` is on and the target could not be pre-resolved), the CONNECT gun's
+`newConnectDialFunc` (wraps every error with `errors.WithStack`), `http.Transport.RoundTrip` (hands a dial error back as it
+is) and, with `redirect: true`, `http.Client.Do` (wraps every error in `*url.Error`). -/
+
+inductive DialFail where
+  /-- `connect(2)` failed with this errno (111 refused, 113 no route, …) -/
+  | refused (errno : Nat)
+  /-- no answer before the dialer's timeout -/
+  | timedOut
+  deriving Repr, DecidableEq, Inhabited
+
+/-- what `(*net.Dialer).DialContext` returns -/
+def dialErr : DialFail → Err
+  | .refused n => .opError (.syscallError (.errno n))
+  | .timedOut => .opError .timeout
+
+/-- `netutil.NewDNSCachingDialer`: with the address in the cache (`cached`) it returns what `DialContext` of the resolved
+address returns; without, `conn, err = dialer.DialContext(…); if err != nil { return }` — the error as it is. -/
+def cachingDial (_cached : Bool) (e : Err) : Err := e
+
+/-- NOT the code: a caching dialer that decorates the error of the first dial of an address that is not cached yet
+(`errors.Wrapf`: a `withStack` around a `withMessage`) -/
+def cachingDialWrapping (cached : Bool) (e : Err) : Err := if cached then e else .causer (.causer e)
+
+inductive GunKind where
+  | http
+  | http2
+  | connect
+  deriving Repr, DecidableEq, Inhabited
+
+/-- `newConnectDialFunc`: `conn, err = dialer.DialContext(ctx, "tcp", target); if err != nil { err = errors.WithStack(err) }` -/
+def connectDial (e : Err) : Err := .causer e
+
+/-- the error the gun's transport gets from its `DialContext` -/
+def transportDialErr (dialer : Bool → Err → Err) (g : GunKind) (dnsCache cached : Bool) (d : DialFail) : Err :=
+  let e := if dnsCache then dialer cached (dialErr d) else dialErr d
+  match g with
+  | .connect => connectDial e
+  | _ => e
+
+/-- `noRedirectClient.Do` = `RoundTrip`: the dial error as it is; `http.Client.Do`: `&url.Error{Op, URL, Err: err}` -/
+def clientErr (redirect : Bool) (e : Err) : Err := if redirect then .urlError e else e
+
+/-- the error `Shoot` hands to `SetErr` when the dial fails -/
+def dialFailure (g : GunKind) (dnsCache cached redirect : Bool) (d : DialFail) : Err :=
+  clientErr redirect (transportDialErr cachingDial g dnsCache cached d)
+
+/-- every wrapper taken off, wherever it sits -/
+def leaf : Err → Err
+  | .opError e => leaf e
+  | .syscallError e => leaf e
+  | .urlError e => leaf e
+  | .underlying e => leaf e
+  | .causer e => leaf e
+  | e => e
+
+/-! ## round 4: the ammo objects of the grpc/json provider
+
+`decodeAmmo(line, am)`: `am` comes from a `sync.Pool` the instances `Release` their ammo into, so it may still carry an
+earlier entry (tag, call, metadata, payload, id, the invalid flag). The line is decoded into a FRESH value; then
+`am.Reset(tag, call, metadata, payload)` overwrites the whole object. -/
+
+/-- one line of a grpc/json file: every key is optional -/
+structure Entry where
+  tag : Option String := none
+  call : Option String := none
+  metadata : Option (List (String × String)) := none
+  payload : Option (List (String × String)) := none
+  /-- the line is a JSON object the decoder accepts -/
+  decodable : Bool := true
+  deriving Repr, DecidableEq, Inhabited
+
+/-- `ammo.Ammo` -/
+structure AmmoObj where
+  tag : String := ""
+  call : String := ""
+  metadata : List (String × String) := []
+  payload : List (String × String) := []
+  id : Nat := 0
+  invalid : Bool := false
+  deriving Repr, DecidableEq, Inhabited
+
+/-- `var a ammo.Ammo; json.Unmarshal(line, &a)`: what the line does not mention stays zero -/
+def decodeFresh (e : Entry) : AmmoObj :=
+  { tag := e.tag.getD "", call := e.call.getD "", metadata := e.metadata.getD [], payload := e.payload.getD [] }
+
+/-- `(*Ammo).Reset`: `*a = Ammo{tag, call, metadata, payload, 0, false}` -/
+def AmmoObj.reset (_a : AmmoObj) (tag call : String) (md pl : List (String × String)) : AmmoObj :=
+  { tag := tag, call := call, metadata := md, payload := pl, id := 0, invalid := false }
+
+/-- `decodeAmmo` + the `Invalidate` of `start` (`continueonerror`) for a line that cannot be decoded -/
+def deliver (pooled : AmmoObj) (e : Entry) : AmmoObj :=
+  if e.decodable then
+    let a := decodeFresh e
+    pooled.reset a.tag a.call a.metadata a.payload
+  else { pooled.reset "" "" [] [] with invalid := true }
+
+/-- a JSON decoder writing into an existing map: keys of the document replace, other keys stay -/
+def mergeKeys (old new : List (String × String)) : List (String × String) :=
+  new ++ old.filter fun kv => !(new.any fun n => n.1 == kv.1)
+
+/-- NOT the code: the line is decoded straight into the pooled object (no fresh value, no `Reset`): what the line does not
+mention keeps what the object carried, maps are merged, the unexported fields are not touched -/
+def deliverInto (pooled : AmmoObj) (e : Entry) : AmmoObj :=
+  if e.decodable then
+    { pooled with
+      tag := e.tag.getD pooled.tag, call := e.call.getD pooled.call,
+      metadata := match e.metadata with | some m => mergeKeys pooled.metadata m | none => pooled.metadata,
+      payload := match e.payload with | some m => mergeKeys pooled.payload m | none => pooled.payload }
+  else { pooled.reset "" "" [] [] with invalid := true }
+
+/-- The provider's loop with the instances' `Release`s: for every line an object is taken from the pool (`choose`: any
+policy, `none` = a new one) and filled by `dlv`; the ammo is shot and released, i.e. the object goes back to the pool as
+it is. Returns the ammo delivered, in file order. -/
+def runAmmoPool (dlv : AmmoObj → Entry → AmmoObj) (choose : List AmmoObj → Option Nat) :
+    List AmmoObj → List Entry → List AmmoObj
+  | _, [] => []
+  | pool, e :: rest =>
+    let pooled := ((choose pool).bind (pool[·]?)).getD {}
+    let pool' := match choose pool with
+      | some i => pool.eraseIdx i
+      | none => pool
+    let a := dlv pooled e
+    a :: runAmmoPool dlv choose (a :: pool') rest
+
+/-- what the scripted gRPC target of the harness makes of an ammo: the method must be the one it serves, the payload may
+only carry the field `name`, the metadata key `x-code` selects the status it answers -/
+def scriptedOutcome (a : AmmoObj) : GrpcOutcome :=
+  if a.invalid then .invalidAmmo
+  else if a.call != "target.TargetService.Hello" then .unknownMethod
+  else if a.payload.any (fun kv => kv.1 != "name") then .badPayload
+  else match a.metadata.find? (fun kv => kv.1 == "x-code") with
+    | some kv => .invoked (kv.2.toNat?.getD 0)
+    | none => .invoked 0
+
+/-- the samples of a run of the plain gRPC gun over the ammo a provider delivers -/
+def shootAmmo (ammo : List AmmoObj) : List Sample :=
+  ammo.flatMap fun a => (shootGrpc a.tag (scriptedOutcome a)).reports
+
+/-! ## round 4: a counter of any width, standing anywhere -/
+
+/-- one atomic `Add(1)` on a counter of `bits` bits, widened to the `uint64` the id is -/
+def nextIDw (bits : Nat) (c : Nat) : Nat × Nat := ((c + 1) % 2 ^ bits, (c + 1) % 2 ^ bits)
+
+def runIdsW {ι : Type} (bits : Nat) : Nat → List ι → List (ι × Nat)
+  | _, [] => []
+  | c, i :: rest => (i, (nextIDw bits c).2) :: runIdsW bits (nextIDw bits c).1 rest
+
 /-! ## a whole pool run of a plain http gun: acquire (id) then shoot -/
 
 /-- what happens to one acquired ammo: its tag and path, and how the exchange turns out -/
